@@ -81,7 +81,7 @@ theorem members_ws (f : Nat) (w s : Str) (acc : Entries) (hw : WsOnly w = true) 
   | succ f => rw [members, members, skipWs_ws_append w s hw]
 
 /-- `[`, white space, then something that is neither white space nor `]`: the elements follow -/
-theorem value_bracket_ws (f : Nat) (w : Str) (c : Char) (tl : Str) (hw : WsOnly w = true)
+theorem value_bracket_wsI (f : Nat) (w : Str) (c : Char) (tl : Str) (hw : WsOnly w = true)
     (h : isWs c = false) (h2 : c ≠ ']') :
     value (f + 1) ('[' :: (w ++ c :: tl)) = elements f (c :: tl) [] := by
   rw [value_bracket, skipWs_ws_append _ _ hw, skipWs_cons_of _ _ h]
@@ -198,7 +198,7 @@ theorem rtI_value : ∀ (v : Val) (html : Bool) (pfx ind : Str) (d : Nat) (rest 
           (by simp only [sz] at hf; omega)
         rw [he, List.cons_append] at hl
         rw [encNI_list_cons, he, List.cons_append,
-          value_bracket_ws f _ c _ (wsOnly_nlIndent pfx ind hp hi (d + 1)) hc1 hc2, hl]
+          value_bracket_wsI f _ c _ (wsOnly_nlIndent pfx ind hp hi (d + 1)) hc1 hc2, hl]
         simp
   | .map [], html, pfx, ind, d, rest, f, _, _, hv, hr, hf => by
       rw [encNI_map_nil]; exact rt_value _ html rest f hv hr hf
